@@ -206,6 +206,8 @@ def run(chk):
         "harness tools/props/c19.py",
     ]
     leanio.prove(chk, "MontePyVerif.Props.C19", THEOREMS, "MontePyVerif")
+    if chk.thorough:
+        leanio.leanchecker(chk, ["MontePyVerif.Props.C19"])
     cases = gen_cases(chk)
     results = pmap(run_case, cases, chunksize=2)
     for c, r in zip(cases, results):
